@@ -4,13 +4,18 @@ Part 1 (this module): relay outcome histories (whole-message and per-recipient s
 failures, unexpected exceptions; backoff tables that stop granting retries) on all four storage backends with the real
 Queue, compared with the Lean attempt model (Model/Attempt.lean) and checked against the conservation ledger.
 """
-from harness.core import rng_for
+import os
+
+from harness.core import rng_for, CaseResult, hit
 from harness.props import _queuehist as qh
 
 RULE = ('seeded outcome histories of 1..6 attempts over 1..5 recipients mixing None/Reply, mapping, sequence, Transient, '
         'Permanent and unexpected exceptions, backoff tables ending in None, null and non-null sender, on dict, disk, '
         'redis and cloud backends, unbounded and bounded pools. distinct = distinct case descriptor; non-trivial = '
-        'at least one attempt.')
+        'at least one attempt. kind=restart: a queue accepts 2..8 messages on disk / redis / cloud storage (some enqueues fail '
+        'half-way and leave debris: disk: an envelope file without its meta file, a stray temp file, an unreadable meta file), '
+        'the process "restarts" (fresh storage object and Queue over the same persisted state) and every accepted message must be '
+        'attempted and leave storage.')
 BUDGET_S = {'quick': 170, 'thorough': 1500}
 
 
@@ -27,7 +32,101 @@ def cases(tier, seed, phase):
                     'backoff': qh.gen_backoff(rng, 5), 'sender': rng.random() < 0.8, 'factory': True,
                     'pools': rng.choice([[None, None]] * 7 + [[2, 2], [1, 2], [1, 1]])}
         yield mk
+    for j in range(60 if tier == 'quick' else 1200):
+        def mk(j=j):
+            rng = rng_for(seed, 'c01r', j)
+            n = rng.randint(2, 8)
+            be = ['disk', 'disk', 'redis', 'cloud'][j % 4]
+            fails = sorted(rng.sample(range(n), rng.choice([0, 1, 1, 2]))) if be == 'disk' else []
+            return {'kind': 'restart', 'backend': be, 'n': n, 'fail_meta_at': fails, 'stray_tmp': rng.random() < 0.5,
+                    'garbage_meta': be == 'disk' and rng.random() < 0.3, 'seed': j}
+        yield mk
+
+
+def run_restart(case, model):
+    """Accept messages, restart over the same persisted state, require every accepted message to be attempted."""
+    import gevent
+    from slimta.queue import Queue, QueueError
+    from slimta.relay import Relay
+    from slimta.envelope import Envelope
+    from harness.props.c15 import Backend
+    try:
+        gevent.get_hub().exception_stream = None
+    except Exception:
+        pass
+    be = Backend(case['backend'])
+    hits = []
+    accepted = {}
+    try:
+        st = be.store
+        q1 = Queue(st, None)
+        if case['backend'] == 'disk':
+            real_write_meta = st.ops.write_meta
+            counter = {'n': 0}
+
+            def write_meta(id, meta):
+                k = counter['n']
+                counter['n'] += 1
+                if k in case['fail_meta_at']:
+                    raise OSError(28, 'No space left on device')
+                return real_write_meta(id, meta)
+            st.ops.write_meta = write_meta
+        for k in range(case['n']):
+            env = Envelope('s%d@example.com' % k, ['r%d@example.com' % k])
+            env.parse(b'Subject: m%d\r\n\r\nbody\r\n' % k)
+            try:
+                res = q1.enqueue(env)
+            except OSError:
+                continue
+            for _, id in res:
+                if not isinstance(id, BaseException):
+                    accepted[id] = k
+        if case['backend'] == 'disk':
+            if case.get('stray_tmp'):
+                open(os.path.join(be.tmp, 'tmp', 'tmpstray123'), 'wb').write(b'half a file')
+            if case.get('garbage_meta'):
+                # a meta file whose envelope never made it and whose content is cut short: must not stop the others
+                open(os.path.join(be.tmp, 'meta', '0' * 32 + '.meta'), 'wb').write(b'\x80\x04\x95')
+        # ---- restart
+        if case['backend'] == 'disk':
+            from slimta.diskstorage import DiskStorage
+            st2 = DiskStorage(os.path.join(be.tmp, 'env'), os.path.join(be.tmp, 'meta'), os.path.join(be.tmp, 'tmp'))
+        elif case['backend'] == 'redis':
+            from slimta.redisstorage import RedisStorage
+            st2 = RedisStorage(port=st.redis.connection_pool.connection_kwargs['port'], prefix=st.prefix)
+        else:
+            from slimta.cloudstorage import CloudStorage
+            st2 = CloudStorage(st.obj_store)
+        seen = {}
+
+        class R(Relay):
+            def attempt(self, envelope, attempts):
+                seen[envelope.sender] = seen.get(envelope.sender, 0) + 1
+                return None
+        q2 = Queue(st2, R(), backoff=lambda env, attempts: 0)
+        q2.start()
+        want = set('s%d@example.com' % k for k in accepted.values())
+        for _ in range(400):
+            gevent.sleep(0.005)
+            if want <= set(seen):
+                break
+        gevent.sleep(0.02)
+        q2.kill()
+        missing = sorted(want - set(seen))
+        if missing:
+            hits.append(hit('c01.accepted-message-not-attempted-after-restart.' + case['backend'],
+                            'a message whose enqueue had returned an id was never attempted by the queue started over the same storage',
+                            observed={'missing': missing[:4], 'accepted': len(want), 'attempted': len(seen)}))
+    finally:
+        be.close()
+    tags = ['restart', 'restart-' + case['backend']]
+    if case['fail_meta_at']:
+        tags.append('restart-orphan-envelope')
+    key = ('restart', case['backend'], case['n'], tuple(case['fail_meta_at']), case['stray_tmp'], case['garbage_meta'])
+    return CaseResult(None, hits, key, tags)
 
 
 def run_case(case, model):
+    if case.get('kind') == 'restart':
+        return run_restart(case, model)
     return qh.run_case(case, model, {'C01'})
